@@ -172,8 +172,9 @@ theorem runCounters_length : ∀ (ops : List CounterOps) (v : Int), (runCounters
 
 /-! ### geometry, :nth() -/
 
-theorem pwh_eq (cb : Rat) (mA inner mB : Option Rat) (h : mA = none ∨ inner = none ∨ mB = none) :
-    (pageWidthOrHeight cb mA inner mB).mA + (pageWidthOrHeight cb mA inner mB).inner + (pageWidthOrHeight cb mA inner mB).mB = cb := by
+theorem pwh_eq (cb pb : Rat) (mA inner mB : Option Rat) (h : mA = none ∨ inner = none ∨ mB = none) :
+    (pageWidthOrHeight cb pb mA inner mB).mA + pb + (pageWidthOrHeight cb pb mA inner mB).inner
+      + (pageWidthOrHeight cb pb mA inner mB).mB = cb := by
   cases inner with
   | none => simp only [pageWidthOrHeight]; grind
   | some i =>
